@@ -71,7 +71,7 @@ impl<R: BufRead> SymEncryptedDataReader<R> {
             } => {
                 bail!("already decrypting")
             }
-            Self::Error => panic!("SymEncryptedDataReader errored"),
+            Self::Error => bail!("SymEncryptedDataReader errored"),
         }
     }
 }
@@ -80,9 +80,7 @@ impl<R: BufRead> BufRead for SymEncryptedDataReader<R> {
     fn fill_buf(&mut self) -> io::Result<&[u8]> {
         match self {
             Self::Body { ref mut decryptor } => decryptor.fill_buf(),
-            Self::Error => {
-                panic!("SymEncryptedDataReader errored")
-            }
+            Self::Error => Err(io::Error::other("SymEncryptedDataReader errored")),
         }
     }
 
